@@ -305,3 +305,17 @@ lemma('L_BW_lip', _PBW + [('e', REAL)], lambda c, r, ns, sl, A, B, e: Implies(An
 lemma('L_BW_nonneg', [('c', INT), ('r', REAL), ('ns', NS), ('sl', SLT), ('A', AR)],
       lambda c, r, ns, sl, A: Implies(And(r >= 0, _inrange(ns, sl, L_len(ns, NS)), _nonneg(A, sl), _properW(c, ns)), BW(c, r, ns, sl, A) >= 0),
       hints=lambda c, r, ns, sl, A: [LEMMAS[n](ns, sl, A, L_len(ns, NS)) for n in ('L_MaxS_nonneg', 'L_MinW0_nonneg', 'L_SumS_nonneg')] + [L_len(ns, NS) >= 0])
+
+
+def _zero_succ(ns, sl, X, i):
+    k = Int('k!z')
+    return ForAll([k], Implies(And(0 <= k, k < i), val(ns, sl, X, k) == 0))
+
+
+lemma('L_MaxS_zero', _PB, lambda ns, sl, A, i: Implies(_zero_succ(ns, sl, A, i), MaxS(ns, sl, A, i) == 0), ind='i')
+lemma('L_MinS_zero', _PB, lambda ns, sl, A, i: Implies(And(_zero_succ(ns, sl, A, i), i >= 1), MinS(ns, sl, A, i) == 0), ind='i')
+lemma('L_SumS_zero', _PB, lambda ns, sl, A, i: Implies(_zero_succ(ns, sl, A, i), SumS(ns, sl, A, i) == 0), ind='i')
+# a state all of whose successors have value 0 has Bellman value 0 (needs at least one successor for a minimising state)
+lemma('L_BR_zero', [('c', INT), ('ns', NS), ('sl', SLT), ('A', AR)],
+      lambda c, ns, sl, A: Implies(And(_zero_succ(ns, sl, A, L_len(ns, NS)), L_len(ns, NS) >= 1, 0 <= c, c <= 2), BR(c, ns, sl, A) == 0),
+      hints=lambda c, ns, sl, A: [LEMMAS[n](ns, sl, A, L_len(ns, NS)) for n in ('L_MaxS_zero', 'L_MinS_zero', 'L_SumS_zero')])
